@@ -89,6 +89,11 @@ Definition py_format_float (s : vshape) : res unit :=
   | _ => Exn
   end.
 
+(* the one OverflowError of the float formats: float(v) of an int beyond the float range (the
+   infinities, whose int(v) raises OverflowError too, never reach the `try`) *)
+Definition float_overflows (s : vshape) : bool :=
+  match s with VIntLike big => big | _ => false end.
+
 (* `v.isoformat()` *)
 Definition py_isoformat (s : vshape) : res unit :=
   match s with
@@ -118,8 +123,10 @@ Definition fmt_value (dt : option dtype) (s : vshape) : res fmt :=
         bind (nonfinite s) (fun nf =>
           if nf then bind (py_format_float s) (fun _ => Ret FmtG)
           else bind (py_int s) (fun _ =>
-                 bind (py_format_float s) (fun _ =>
-                   Ret (if equals_its_int s then FmtFix1 else FmtG))))
+                 (* try: f"{v:.1f}" if v == int(v) else f"{v:g}"  except OverflowError: str(v) *)
+                 if float_overflows s then Ret FmtStr
+                 else bind (py_format_float s) (fun _ =>
+                        Ret (if equals_its_int s then FmtFix1 else FmtG))))
       else if kind_eqb (dkind d) KInt then Ret FmtStr
       else if kind_eqb (dkind d) KDate then bind (py_isoformat s) (fun _ => Ret FmtIso)
       else if kind_eqb (dkind d) KStr then Ret FmtStr
